@@ -2,6 +2,7 @@ package taskfile
 
 import (
 	"context"
+	"io/fs"
 	"os"
 	"path/filepath"
 
@@ -27,8 +28,14 @@ func (n *zzFileNode) ResolveDir(d string) (string, error)        { return d, nil
 
 //gosmt:stub github.com/go-task/task/v3/taskfile.NewNode
 func zzNewNode(entrypoint string, dir string, insecure bool, opts ...NodeOption) (Node, error) {
+	if zzMissing[entrypoint] {
+		return nil, &fs.PathError{Op: "stat", Path: entrypoint, Err: fs.ErrNotExist}
+	}
 	return &zzFileNode{BaseNode: NewBaseNode(dir, opts...), loc: entrypoint}, nil
 }
+
+// zzMissing: locations for which no file exists
+var zzMissing map[string]bool
 
 //gosmt:stub (*github.com/go-task/task/v3/taskfile.Reader).readNode
 func zzReadNode(r *Reader, ctx context.Context, node Node) (*ast.Taskfile, error) {
@@ -36,7 +43,15 @@ func zzReadNode(r *Reader, ctx context.Context, node Node) (*ast.Taskfile, error
 }
 
 //gosmt:stub os.Environ
-func zzEnviron() []string { return []string{"HOME=/h"} }
+func zzEnviron() []string {
+	if zzEnvironList != nil {
+		return append([]string{}, zzEnvironList...)
+	}
+	return []string{"HOME=/h"}
+}
+
+// zzEnvironList: the process environment of the harness (nil = just HOME)
+var zzEnvironList []string
 
 func zzReadTree() (string, bool) {
 	ver := &semver.Version{}
